@@ -27,7 +27,7 @@ SHARD_TIMEOUT = {"quick": 600, "thorough": 3000}
 
 
 def plan(tier, seed):
-    n = 400 if tier == "quick" else 6000
+    n = 800 if tier == "quick" else 8000
     sh = []
     for d in simlib.DRIVERS:
         parts = 2 if tier == "quick" else 8
